@@ -9,8 +9,14 @@
     filesystem is observed (listing of every directory, inode types and link counts, in-use set, exact slot layout of every
     directory block, htree index, free counts) and every observation is validated by TLC against spec/Trace_Dir.tla: the run
     of operations applied to Dir + DirBlock + HTree must yield exactly the observation, all invariants are evaluated on every
-    line, `e2fsck -fyD` must find nothing on states the model calls consistent, and the final `e2fsck -fn` must be clean
-    exactly when the model says so."""
+    line, `e2fsck -fyD` must find nothing on states the model calls consistent and must leave every directory in exactly the
+    form HTree.tla states for a rebuilt directory (leaf fill, level decision and index of calculate_tree), and the final
+    `e2fsck -fn` must be clean exactly when the model says so.
+(3) Directory sizes at which the rebuilt index changes shape are taken from the BOUNDARY CATALOGUE of HTree.tla (written by
+    spec/Emit_HTreeCat.tla: root limit, interior-node limit, root*node limit, for 1k/2k/4k blocks with and without
+    metadata_csum; c-1, c, c+1, c+2 leaf blocks each): every feasible size is built from a linear directory and re-indexed,
+    and a directory is grown across each boundary in steps of at most one leaf with `e2fsck -fyD` after every step.
+(4) Refusals: mkdir / symlink / write of a name that exists (every kind of existing object) must change nothing."""
 import os, sys, json, random, shutil, subprocess, struct, time, hashlib, threading
 import concurrent.futures as cf
 from common import VERIF, fast_tmp, seed, die_broken, tool_env, run as sh
@@ -35,7 +41,7 @@ PROFILES = {
 }
 BLOCKSIZES = (1024, 4096)
 # deviations of the pinned tree that are modelled literally (DESIGN 3.5); all FALSE = repaired behaviour
-DEV = {"DevMkdirNoNlinkRule": "FALSE", "DevKillLeaksEaBlock": "FALSE"}
+DEV = {"DevMkdirNoNlinkRule": "FALSE", "DevKillLeaksEaBlock": "FALSE", "DevMkdirExistsLeak": "FALSE", "DevSymlinkExistsLeak": "FALSE"}
 
 FT = {"mkdir": 2, "create": 1, "symlink": 7}
 LOCK = threading.Lock()
@@ -314,6 +320,14 @@ class Gen:
         for _ in range(50):
             k = r.random()
             d = r.choice(userdirs if r.random() < 0.93 else dirs)
+            if k < 0.012:
+                # a request that must be refused: mkdir / symlink / write of a name that exists (Dir!RefusedExists)
+                if not ents: continue
+                e = r.choice(ents)
+                kind = r.choice(["mkdir", "symlink", "create"])
+                if kind == "mkdir": return "mkdir %d %s" % (e[0], e[1])
+                if kind == "symlink": return "symlink %d %s %d" % (e[0], e[1], r.choice([10, 200]))
+                return "create %d %s 0" % (e[0], e[1])
             if k < 0.09:
                 if len(dirs) >= 5: continue
                 return "mkdir %d %s" % (d, self.newname(r.choice([8, 8, 120, 255, 1])))
@@ -414,16 +428,26 @@ def run_behaviour(env, spec, script=None):
     feat, ftflag, dirnlink, inline = PROFILES[prof]
     csum = "metadata_csum" in feat and "^metadata_csum" not in feat
     rng = random.Random(spec["seed"])
-    img = os.path.join(env.work, "img_%s.img" % hashlib.sha1(json.dumps(spec, sort_keys=True).encode()).hexdigest()[:12])
+    img = os.path.join(env.work, "img_%s.img" % hashlib.sha1(json.dumps([spec, script], sort_keys=True).encode()).hexdigest()[:12])
     shutil.copyfile(env.base_image(prof, bs, spec.get("big", 0)), img)
+    prep = spec.get("prep")          # operations executed through the library before the first observation (large directories)
     hver, seedw = sb_hash_params(img)
     names = Names(hver, seedw)
     names.nid("lost+found", add=True)
+    for d, ns in (prep["want"] if prep else []):
+        for n in ns:
+            names.nid(n, add=True)
     gen = Gen(rng, prof, bs, front, spec.get("raw", 0), spec.get("big", 0))
     lines, steps = [], []
     drv = None
     crash = None
     try:
+        if prep:
+            d0 = Driver(env, img); d0.hello()
+            for opl in prep["ops"]:
+                d0.do(opl, quiet=True)
+            if d0.close() != 0:
+                raise RuntimeError("dirdrv failed while preparing %s" % prep.get("what"))
         if front == "lib":
             drv = Driver(env, img)
             cur = Obs(drv.hello()["st"], csum)
@@ -485,8 +509,10 @@ def run_behaviour(env, spec, script=None):
             continue
         out.append(tline("step" if kind == "step" else kind, prev, c, names, tops, fe, rc))
     first = lines[0][2]
+    want = [[d, sorted(names.nid(n) for n in ns)] for d, ns in (prep["want"] if prep else [])]
     reset = tline("reset", None, first, names, extra={"bs": bs, "tail": 12 if csum else 0, "cs": 12 if csum else 0, "inline": inline,
-                                                       "maxlv": 2, "names": names.rows})
+                                                       "maxlv": 2, "names": names.rows, "want": want,
+                                                       "dirindex": 0 if "^dir_index" in feat else 1})
     return dict(lines=[reset] + out, steps=steps, crash=crash, spec=spec,
                 stats=dict(splits=0))
 
@@ -532,7 +558,7 @@ def model_check(ev, tier, work):
         T.write_cfg(p, **kw)
         return p
     base = dict(Root=1, FirstIno=2, NInodes=6, LinkMax=3, LinkMod=8, DirNlink="TRUE", FileType="TRUE",
-                DevMkdirNoNlinkRule="FALSE", DevKillLeaksEaBlock="FALSE", NameSet="{1, 2, 3}", MaxDirs=3, TotalBlocks=12)
+                DevMkdirNoNlinkRule="FALSE", DevKillLeaksEaBlock="FALSE", DevMkdirExistsLeak="FALSE", DevSymlinkExistsLeak="FALSE", NameSet="{1, 2, 3}", MaxDirs=3, TotalBlocks=12)
     inv = ["InvTypeOK", "InvLinksRule", "InvNoFreeReferenced", "InvBalancedIsConsistent", "InvConservation", "InvNoLeak", "InvConsistentIsBalanced"]
     depth = 3 if tier == "quick" else 5
     c = cfg("MC_Dir.cfg", spec="Spec", constants=dict(base, MaxDepth=depth), invariants=inv, constraints=["Depth"])
@@ -574,7 +600,7 @@ def trace_cfg(work, prof):
     return p
 
 
-def universe(tier, rng):
+def universe(tier, rng, cat):
     specs = []
     nlib, ndbg, nsteps = (96, 36, 22) if tier == "quick" else (1800, 600, 40)
     combos = [(p, b) for p in PROFILES for b in BLOCKSIZES]
@@ -595,6 +621,137 @@ def universe(tier, rng):
     for p, b, fe, n1, n2, ln in bigs:
         sc = big_script(n1, n2, ln)
         specs.append(dict(prof=p, bs=b, front=fe, seed=1, nsteps=len(sc), raw=0, big=1, script=sc))
+    bspecs, skipped = boundary_specs(tier, cat, rng)
+    return specs + refusal_specs(tier) + bspecs, skipped
+
+
+# ------------------------------------------------------------------------------------------------ boundary catalogue
+MAX_NAMES = {"quick": 1900, "thorough": 7000}      # largest directory (names) a tier builds; larger catalogue elements are reported as not visited
+BIGDIR, HOLDER = 12, 13                            # first free inodes of a fresh base image: the large directory and the file its hard links name
+
+
+def load_catalogue(work):
+    """the directory sizes (leaf blocks) at which the rebuilt index changes shape, enumerated by TLC from HTree!Catalogue"""
+    out = os.path.join(work, "htree_catalogue.json")
+    r = T.tlc(os.path.join(SPEC, "Emit_HTreeCat.tla"), os.path.join(SPEC, "Emit_HTreeCat.cfg"), workers=1, timeout=300, env={"OUT": out}, xmx="1g")
+    if not r.ok or not os.path.exists(out):
+        die_broken("TLC could not enumerate the boundary catalogue (Emit_HTreeCat): %s\n%s" % (r.error, r.out[-1500:]))
+    cat = json.load(open(out))["cat"]
+    return sorted(cat, key=lambda e: (e["len"], e["bs"], e["csum"], e["leaves"], e["kind"]))
+
+
+def bname(i, ln):
+    return ("b%05d_" % i).ljust(ln, "y")[:max(ln, 7)]
+
+
+def add_ops(front, lo, hi, ln):
+    """operations that create the names lo..hi-1 of the large directory: through the library mostly hard links to one file
+    (so that thousands of names need a handful of inodes) with an object of every other kind in between; through debugfs
+    (which has no counted hard link) objects of rotating kinds"""
+    ops = []
+    for i in range(lo, hi):
+        n = bname(i, ln)
+        k = i % 16 if front == "lib" else (1, 5, 9, 13)[i % 4]
+        if i == 0 or k == 1: ops.append("create %d %s 0" % (BIGDIR, n))
+        elif k == 5: ops.append("mkdir %d %s" % (BIGDIR, n))
+        elif k == 9: ops.append("symlink %d %s %d" % (BIGDIR, n, 10 if i % 32 < 16 else 200))
+        elif k == 13: ops.append("mknod %d %s p" % (BIGDIR, n))
+        else: ops.append("hlink %d %s %d" % (BIGDIR, n, HOLDER))
+    return ops
+
+
+def del_op(i, ln, front):
+    k = i % 16 if front == "lib" else (1, 5, 9, 13)[i % 4]
+    return ("rmdir %d %s" if (k == 5 and i != 0) else "rm %d %s") % (BIGDIR, bname(i, ln))
+
+
+def runs(ops, k=40):
+    return [{"kind": "step", "ops": ops[i:i + k]} for i in range(0, len(ops), k)]
+
+
+def fresh_script(front, n, ln, stepwise):
+    """a linear directory of exactly n names, re-indexed; one name replaced; re-indexed again"""
+    build = add_ops(front, 0, n, ln)
+    steps = [{"kind": "step", "ops": ["mkdir 2 big"]}]
+    prep = None
+    if stepwise:
+        steps += runs(build)
+    else:
+        prep = {"what": "%d names" % n, "ops": ["mkdir 2 big"] + build, "want": [[2, ["lost+found", "big"]], [BIGDIR, [bname(i, ln) for i in range(n)]]]}
+        steps = []
+    steps += [{"kind": "fsckD", "ops": []}, {"kind": "step", "ops": [del_op(3, ln, front)]}, {"kind": "step", "ops": add_ops(front, n, n + 1, ln)},
+              {"kind": "fsckD", "ops": []}, {"kind": "fsckn", "ops": []}]
+    return steps, prep
+
+
+def growth_script(front, targets, ln, stepwise):
+    """the directory grows through the name counts `targets` (both ends of every leaf count around a boundary), re-indexed
+    after every step; on the way up (stepwise) it is indexed early so that the names arrive through dx_link"""
+    steps = [{"kind": "step", "ops": ["mkdir 2 big"]}]
+    prep = None
+    t0 = targets[0]
+    if stepwise:
+        early = min(40, t0)
+        steps += runs(add_ops(front, 0, early, ln)) + [{"kind": "fsckD", "ops": []}] + runs(add_ops(front, early, t0, ln))
+    else:
+        prep = {"what": "%d names" % t0, "ops": ["mkdir 2 big"] + add_ops(front, 0, t0, ln), "want": [[2, ["lost+found", "big"]], [BIGDIR, [bname(i, ln) for i in range(t0)]]]}
+        steps = []
+    steps.append({"kind": "fsckD", "ops": []})
+    have = t0
+    for t in targets[1:]:
+        steps += [{"kind": "step", "ops": add_ops(front, have, t, ln)}, {"kind": "fsckD", "ops": []}]
+        have = t
+    # back down across the last boundary: remove one leaf's worth of names, re-index
+    steps += [{"kind": "step", "ops": [del_op(i, ln, front) for i in range(20, 20 + (targets[-1] - targets[-3] if len(targets) > 2 else 1))]},
+              {"kind": "fsckD", "ops": []}, {"kind": "fsckn", "ops": []}]
+    return steps, prep
+
+
+def boundary_specs(tier, cat, rng):
+    """behaviours derived from the catalogue.  Returns (specs, visited-plan, skipped elements)"""
+    specs, skipped = [], []
+    groups = {}
+    for e in cat:
+        if e["leaves"] * e["per"] + 1 > MAX_NAMES[tier]:
+            skipped.append(e); continue
+        groups.setdefault((e["len"], e["bs"], e["csum"]), []).append(e)
+    for (ln, bs, csum), els in sorted(groups.items()):
+        prof = "dxcsum" if csum else "dx"
+        per = els[0]["per"]
+        leaves = sorted({e["leaves"] for e in els})
+        stepwise = (bs == 1024 and ln == 255) and not os.environ.get("C10_NOSTEP")
+        # growth across the whole range of catalogued leaf counts of this geometry (they are adjacent: node limit = root limit + 3)
+        targets = sorted({x for L in leaves for x in ((L - 1) * per + 1, L * per)})
+        fronts = ["lib", "dbg"] if (stepwise and tier != "quick") else ["lib" if (csum or not stepwise) else "dbg"]
+        for fe in fronts:
+            sc, prep = growth_script(fe, targets, ln, stepwise)
+            specs.append(dict(prof=prof, bs=bs, front=fe, seed=1, nsteps=len(sc), raw=0, big=1, script=sc, prep=prep,
+                              cat=dict(kind="growth", bs=bs, csum=csum, len=ln, leaves=leaves)))
+        # every catalogued size built as a linear directory and indexed for the first time
+        for L in leaves:
+            fe = "lib" if (not stepwise or (L + csum) % 2) else "dbg"
+            sc, prep = fresh_script(fe, L * per, ln, stepwise)
+            specs.append(dict(prof=prof, bs=bs, front=fe, seed=1, nsteps=len(sc), raw=0, big=1, script=sc, prep=prep,
+                              cat=dict(kind="fresh", bs=bs, csum=csum, len=ln, leaves=[L])))
+    return specs, skipped
+
+
+def refusal_specs(tier):
+    """mkdir / symlink / write of an existing name, for every kind of existing object: refused, nothing changes; e2fsck -fn after each"""
+    specs = []
+    for prof in PROFILES:
+        for bs in BLOCKSIZES:
+            for fe in ("lib", "dbg"):
+                if tier == "quick" and (list(PROFILES).index(prof) + BLOCKSIZES.index(bs) + ("lib", "dbg").index(fe)) % 2:
+                    continue
+                sc = [{"kind": "step", "ops": ["mkdir 2 ed"]}, {"kind": "step", "ops": ["create 2 ef 100"]}, {"kind": "step", "ops": ["symlink 2 es 10"]}]
+                for req in ("mkdir 2 %s", "create 2 %s 0", "symlink 2 %s 10", "symlink 2 %s 200"):
+                    for victim in ("ed", "ef", "es"):
+                        sc += [{"kind": "step", "ops": [req % victim]}, {"kind": "fsckn", "ops": []}]
+                    if req.startswith("mkdir"):       # the next allocation takes the inode a refused request may have touched
+                        sc += [{"kind": "step", "ops": ["mkdir 2 ed2"]}, {"kind": "fsckD", "ops": []}]
+                sc += [{"kind": "step", "ops": ["mknod 2 ep p"]}, {"kind": "fsckn", "ops": []}]
+                specs.append(dict(prof=prof, bs=bs, front=fe, seed=1, nsteps=len(sc), raw=0, big=0, script=sc, cat=dict(kind="refusal")))
     return specs
 
 
@@ -666,7 +823,8 @@ def run(tier):
         if mc_err:
             vd.violation("model", mc_err[:300], {"tlc": mc_err})
         rng = random.Random(seed())
-        specs = universe(tier, rng)
+        cat = load_catalogue(work)
+        specs, skipped = universe(tier, rng, cat)
         t0 = time.time()
         with cf.ThreadPoolExecutor(max_workers=JOBS) as ex:
             behs = list(ex.map(lambda s: run_behaviour(env, {k: v for k, v in s.items() if k != "script"}, script=s.get("script")), specs))
